@@ -119,6 +119,8 @@ pub struct C04;
 
 /// plain notation materialises every zero: exercised up to this |scale| (a 100 kB string), short values only beyond 5000
 const PLAIN_SCALE_LIMIT: i64 = 100_000;
+const PLAIN_NEG_SCALE_LIMIT: i64 = (1 << 17) + 1;
+const PLAIN_POS_SCALE_LIMIT: i64 = (1 << 24) + 2;
 const PLAIN_SCALE_LIMIT_LONG_VALUES: i64 = 5000;
 /// sign, '.', 'E', exponent sign and up to 20 exponent digits: the most the exponent forms add;
 /// "0." plus 5 zeros or 15 trailing zeros are the most the plain forms add
@@ -128,6 +130,8 @@ const TRAILING_ZERO_THRESHOLD: i128 = 15;
 
 /// every scale in -2100..=2100 (x 2 digit strings)
 const SCALE_SWEEP: u64 = 4201 * 2;
+/// scales 2^k-1, 2^k, 2^k+1: k = 5..=17 negative, k = 5..=24 positive; 4 digit strings
+const POW2_SWEEP: u64 = (13 + 20) * 3 * 4;
 /// every digit count 1..=1100
 const LEN_SWEEP: u64 = 1100;
 const GRID_LENS: u64 = 40;
@@ -376,6 +380,7 @@ impl Property for C04 {
     fn runs(&self, tier: Tier) -> u64 {
         grid_cells(tier)
             + SCALE_SWEEP
+            + POW2_SWEEP
             + LEN_SWEEP
             + match tier {
                 Tier::Quick => 36_000,
@@ -406,6 +411,19 @@ impl Property for C04 {
             return Trace { value: Dec::new((r / 2) % 2 == 1, &digits, scale), ops: ALL_OPS.to_vec(), env: EnvSel::All, transport: (r % 7) as u8 };
         }
         let r = r - SCALE_SWEEP;
+        if r < POW2_SWEEP {
+            // scales at powers of two +-1 (buffer pages, 16-bit widths, size caps): 2^5 .. 2^17 on both sides,
+            // up to 2^24 on the positive side; digit strings 0, 1, 7 (negative), 123
+            let which = r % 4;
+            let d = (r / 4) % 3;
+            let kidx = r / 12;
+            let (k, neg_side) = if kidx < 13 { (5 + kidx, true) } else { (5 + (kidx - 13), false) };
+            let mag = (1i64 << k) + d as i64 - 1;
+            let (digits, neg) = [("0", false), ("1", false), ("7", true), ("123", false)][which as usize];
+            let scale = if neg_side { -mag } else { mag };
+            return Trace { value: Dec::new(neg, digits, scale), ops: ALL_OPS.to_vec(), env: EnvSel::All, transport: (r % 7) as u8 };
+        }
+        let r = r - POW2_SWEEP;
         if r < LEN_SWEEP {
             let len = r as usize + 1;
             let mut digits = String::with_capacity(len);
@@ -444,8 +462,12 @@ impl Property for C04 {
         let mut texts: Vec<(Op, String)> = vec![];
 
         for &op in &t.ops {
-            if op.is_plain() && (t.value.scale.abs() > PLAIN_SCALE_LIMIT || (t.value.scale.abs() > PLAIN_SCALE_LIMIT_LONG_VALUES && t.value.ndigits() > 40)) {
-                continue; // plain notation materialises every zero
+            // plain notation materialises every zero. Trailing zeros (negative scale) make the *parser* quadratic, so
+            // they stop at 2^17+1; leading zeros (positive scale) parse in linear time and go up to 2^24+2 for short
+            // values (one 16 MB string per rendering: only under a single sink environment, see `huge` below)
+            let huge = t.value.scale > PLAIN_SCALE_LIMIT;
+            if op.is_plain() && (t.value.scale < -PLAIN_NEG_SCALE_LIMIT || t.value.scale > PLAIN_POS_SCALE_LIMIT || (t.value.scale.abs() > PLAIN_SCALE_LIMIT_LONG_VALUES && t.value.ndigits() > 40)) {
+                continue;
             }
             if op.is_plain() && t.value.scale.abs() > 65_535 {
                 obs.reach("plain_scale_beyond_65535");
@@ -491,6 +513,7 @@ impl Property for C04 {
             // ---- faulted executions
             let chunks = sink.chunks();
             let envs: Vec<SinkSpec> = match &t.env {
+                EnvSel::All if huge && op.is_plain() => vec![SinkSpec::FailAt { k: chunks.len().saturating_sub(1), sticky: false }, SinkSpec::Bounded { capacity: 64, sticky: false }],
                 EnvSel::All => enumerate_envs(&chunks),
                 EnvSel::One(e) => vec![e.clone()],
             };
@@ -673,7 +696,7 @@ impl Property for C04 {
         vec![
             "default build configuration (RUST_BIGDECIMAL_* unset): Display thresholds 5 / 15".into(),
             "identity of digits and scale is not demanded of engineering notation, of Display for scale in [-15,-1], nor of plain notation for negative scale (an integer numeral cannot carry a negative scale); value equality is".into(),
-            "plain notation is exercised for |scale| <= 100000 (<= 5000 for values longer than 40 digits): it materialises every zero".into(),
+            "plain notation materialises every zero: exercised for scales from -(2^17+1) to 2^24+2 for short values (trailing zeros make the parser quadratic, leading zeros do not), |scale| <= 5000 for values longer than 40 digits".into(),
             "a sink that reports an error has refused the whole chunk (or accepted the stated prefix); the text is ASCII".into(),
             "oracle arithmetic: num-bigint (shared dependency) with harness-owned numeral parser and power-of-ten construction".into(),
         ]
